@@ -18,18 +18,22 @@ def wReq (m : HMethod) (p : Bytes) (b : Body) : Req := ⟨m, p, b, [], false, tr
 /-- state after `DELETE /config/` on a fresh process: the Go map `rawCfg` has no "config" key -/
 def wDeleted : State := (serve wEnv (wReq .delete cfgSlash .empty) initState).1
 
-/-- **a rejected request can change something.**  Full statement
-    `∀ reachable s, request r answered non-200 → state after = state before` is false:
-    after `DELETE /config/` succeeded, a `PUT /config/ true` that the apps reject makes
-    `restoreOldCfg` re-create the "config" key (with value nil).  `GET /config/` reads `null`
-    either way, but a following `PUT /config/` is answered 409 instead of 200. -/
-theorem rejected_changes_nothing_full_fails :
-    ∃ (env : Env) (r r' : Req) (s : State),
-      s = (serve env (wReq .delete cfgSlash .empty) initState).1 ∧
-      (serve env r s).2 = .fail .load ∧ (serve env r s).1 ≠ s ∧
-      (serve env r' s).2 = .okWrite ∧ (serve env r' (serve env r s).1).2 = .fail (.access .keyExists) :=
-  ⟨wEnv, wReq .put cfgSlash (.val (.bool true)), wReq .put cfgSlash (.val .null), wDeleted,
-    rfl, by decide, by decide, by decide, by decide⟩
+/-- `restoreOldCfg` as it was before /repo's fix: it always stored the old configuration under
+    the `config` key, also when `DELETE /config/` had removed that key -/
+def restoreOld (s : State) (root : Json) : State :=
+  { s with rawCfg := setCfg (encodeOf s.rawCfgJSON) root }
+
+/-- **the old code let a rejected request change something** (non-vacuity of
+    `rejected_changes_nothing`): after `DELETE /config/` the Go map has no `config` key; the
+    old restore re-created it with a nil value — `GET /config/` read `null` either way, but a
+    following `PUT /config/` was answered 409 instead of 200. The restore of the current code
+    removes the key again. -/
+theorem rejected_changes_nothing_old_code_fails :
+    wDeleted.rawCfg = .obj [] ∧
+    restoreOld wDeleted (.obj [(cfgKey, .bool true)]) ≠ wDeleted ∧
+    restore wDeleted (.obj [(cfgKey, .bool true)]) = wDeleted ∧
+    (serve wEnv (wReq .put cfgSlash (.val (.bool true))) wDeleted) = (wDeleted, .fail .load) := by
+  decide
 
 /-- `{"config":{"a":[[1,2]]}}` -/
 def wNested : Json := .obj [(cfgKey, .obj [([97], .arr [.arr [.num [49], .num [50]]])])]
